@@ -11,8 +11,9 @@ import p_live
 import p_crypto
 import p_webseed
 import p_http
+import p_privacy
 
-HOOK_COMMITS = ["ad8b203", "23d7fe8", "8de280d", "16a7335", "4ddeda5", "a9fce0f"]
+HOOK_COMMITS = ["ad8b203", "23d7fe8", "8de280d", "16a7335", "4ddeda5", "a9fce0f", "a520d9f", "e8728f0"]
 
 NOT_APPLICABLE = {}
 
@@ -44,6 +45,14 @@ REGISTRY = {
                      "inspected block by block and TorData+TorDrop summed. 16 server behaviours x 5 ranges run through GetRight.Get with a recording writer. Running torrents fetch "
                      "from a local web seed (3 layouts x 3 server modes): stored blocks must be the right bytes and inFlight must return to zero.",
             "note": "Trusted: TLC, the scripted HTTP server, mktor/content."},
+    "C18": {"run": p_privacy.run, "design": "DESIGN.md section 3 C18",
+            "technique": "TLC exhaustive model checking of Privacy.tla + edge-covering walks of its state graph executed on a running torrent with every outbound channel observed (local tracker/web seed, SOCKS5 proxy, DHT announce hook, scripted peers)",
+            "level": "Privacy.tla (configuration x proxy x tracker-due x piece-wanted; Start, SetConf, DhtEvent, TrackerDue, Tick, Want, Incoming, Outgoing) is model-checked "
+                     "exhaustively (PrivacyInv: nothing in Forbidden(conf, proxy) is ever produced). Walks covering every edge of the graph are executed on a real torrent "
+                     "(its tickers stopped and fired on demand): the tracker and web seed are a local HTTP server, the proxy a local SOCKS5 server that "
+                     "also plays the remote peer, incoming connections go through tor.Server, DHT announces are observed by a hook. Any observation in the model's "
+                     "Forbidden set for the configuration in force is a violation; differences from the model's out are warnings.",
+            "note": "Trusted: TLC, the harness's HTTP/SOCKS servers. Not driven: UDP trackers, Hoffman web seeds, IPv6 address disclosure (no global IPv6 address in the sandbox)."},
     "C19": {"run": p_http.run_c19, "design": "DESIGN.md section 3 C19",
             "technique": "TLC-enumerated (route, method, Host class) table of WebUI.tla executed on the real handlers through net/http's DefaultServeMux with hostile strings in every remote-controlled source",
             "level": "WebUI.tla states which requests must be refused (foreign or missing Host) and which sources each page shows; TLC checks that a refused request is inert "
